@@ -230,6 +230,19 @@ def clashing_variants(rnd, c0, call):
         r = lambda l: new if l == victim else l  # noqa: E731
         spec = (list(ins), [(r(l), t, [r(o) for o in ops]) for l, t, ops in gates], [r(o) for o in outs])
         yield "label-clash", dict(call, sub_spec=spec, outputs_mapping={k: r(v) for k, v in call["outputs_mapping"].items()})
+    # a gate of the replaced region that outside gates read is *not* declared as an output, and the replacement
+    # re-creates it under the very same label (a re-synthesised copy of an extracted slice does that)
+    om = call["outputs_mapping"]
+    if len(om) >= 2:
+        for host_lab in list(om)[:2]:
+            sub_lab = om[host_lab]
+            if host_lab in ins or any(host_lab == g[0] for g in gates):
+                continue
+            r2 = lambda l: host_lab if l == sub_lab else l  # noqa: E731
+            spec = (list(ins), [(r2(l), t, [r2(o) for o in ops]) for l, t, ops in gates], [r2(o) for o in outs if o != sub_lab])
+            if not spec[2]:
+                continue
+            yield "undeclared-shared-gate-same-label", dict(call, sub_spec=spec, outputs_mapping={k: v for k, v in om.items() if k != host_lab})
 
 
 def unit(p, item, tier, seed):
